@@ -72,6 +72,10 @@ def check(ctx):
     krome_reset(ctx, pkg, "R4")
     _r5(ctx, pkg)
     _r6(ctx, pkg, ci)
+    # the statement `k[i] = ...` carries the translation of reaction i's OWN rate string, not a copy of another coefficient
+    # or a substitute (shared with C06.R1 / C05.R5)
+    from .c06 import _r1 as assignment_rule
+    ctx.absorb(assignment_rule, "R7")
 
 
 def _r6(ctx, pkg, ci):
@@ -347,6 +351,7 @@ def _r3(ctx, pkg):
 
 
 MUTANTS = [
+    {"name": "repeated-expression-copied", "file": "naunet/templateloader.py", "old": "        rateassign = [\n", "new": "        first_use = {}\n        for ridx, rx in enumerate(rateexprs):\n            prev = first_use.setdefault(rx, ridx)\n            if prev != ridx:\n                rateexprs[ridx] = f\"{rate_sym}[{prev}]\"\n        rateassign = [\n", "rules": ["R7"]},
     {"name": "lark-lalr", "file": CF, "old": 'self._parser = Lark(grammar, start="expression")', "new": 'self._parser = Lark(grammar, start="expression", parser="lalr")', "rules": ["R6"]},
     {"name": "krome-rateexpr-lru-cache", "file": KR, "old": "    def rateexpr(self, grain: Grain = None) -> str:", "new": "    @__import__('functools').lru_cache(maxsize=None)\n    def rateexpr(self, grain: Grain = None) -> str:", "rules": ["R5"]},
     {"name": "scientific-mantissa-e-last", "file": CF, "old": "            (s,) = s\n            return s.value", "new": "            if len(s) == 1:\n                return s[0].value\n            return f\"{s[0]}e{s[-1]}\"", "rules": ["R2"]},
